@@ -1,5 +1,6 @@
 // govc:pkg .
 // govc:bound every ordering of up to three GROUP BY keys drawn from {plain column, aliased column, function expression with alias} (15 queries) x one batch of 2 rows per group for 2 groups
+// govc:also C05 C06 C07 C16 C20
 // Bounded stand-in (NOT a proof) for projectGroupColumns / groupFieldOutputName (output naming of group columns, extern in
 // the contracts): every emitted group carries each key's value under the name it was selected with, whatever the position
 // of renamed keys in the GROUP BY list, and no internal (qualified or expression-text) key leaks into the row.
